@@ -176,6 +176,7 @@ type env struct {
 	keyID    string
 	clock    fixedClock
 
+	hung       bool
 	childMode  bool
 	childEvals int
 	childSigs  int
@@ -496,6 +497,9 @@ var outcomeClasses = []int{200, 201, 202, 204, 301, 400, 404, 500, -1}
 
 // runBatch executes one batch and judges it.
 func runBatch(e *env, recipients []string, plan map[string]int, tag string) {
+	if e.hung {
+		return
+	}
 	payload := []byte(fmt.Sprintf(`{"type":"Note","id":"https://local.example/n/%s"}`, tag))
 	cl := &recClient{plan: plan, deflt: 200, yield: true}
 	ps := &recSigner{}
@@ -510,9 +514,16 @@ func runBatch(e *env, recipients []string, plan map[string]int, tag string) {
 	cas := map[string]interface{}{"op": "BatchDeliver", "recipients": recipients, "plan": plan}
 	select {
 	case err = <-done:
-	case <-time.After(60 * time.Second):
+	case <-time.After(30 * time.Second):
+		e.hung = true // later batches are skipped: the hung one leaks its goroutines
 		if int(atomic.LoadInt64(&cl.doCount)) >= len(recipients) {
-			e.viol("batch-did-not-return", "all sends returned", cas, "every HttpClient.Do returned but BatchDeliver did not return within 60 s")
+			failing := 0
+			for _, r := range recipients {
+				if st, ok := plan[r]; ok && !(st == 200 || st == 201 || st == 202) {
+					failing++
+				}
+			}
+			e.viol("batch-did-not-return", "all sends returned", cas, fmt.Sprintf("every HttpClient.Do returned (%d recipients, %d failing) but BatchDeliver did not return within 30 s", len(recipients), failing))
 		} else {
 			e.r.Inconclusive("BatchDeliver watchdog fired before all sends returned")
 		}
@@ -612,6 +623,18 @@ func runBatches(e *env, seed int64, nRandom int) {
 				break
 			}
 		}
+	}
+	// every recipient fails, for every batch size up to 40 and for 64: the
+	// error channel must hold them all
+	for _, n := range append(seqInts(1, 40), 64) {
+		plan := map[string]int{}
+		var rec []string
+		for j := 0; j < n; j++ {
+			u := fmt.Sprintf("https://f%d.example/inbox/%d", j%3, j)
+			rec = append(rec, u)
+			plan[u] = []int{500, 404, -1}[j%3]
+		}
+		runBatch(e, rec, plan, fmt.Sprintf("allfail%d", n))
 	}
 	for i := 0; i < nRandom; i++ {
 		g := prng.New(seed, "c19.batch", i)
@@ -814,4 +837,12 @@ func runConcurrent(e *env, seed int64) {
 	}
 	e.r.Count("concurrent_requests_captured", len(reqs))
 	e.r.NonTrivial("concurrent")
+}
+
+func seqInts(lo, hi int) []int {
+	var o []int
+	for i := lo; i <= hi; i++ {
+		o = append(o, i)
+	}
+	return o
 }
